@@ -220,7 +220,7 @@ func H_Filter_Multi() {
 	}
 	before := observe(h)
 	h2 := mk()
-	acceptDrain(h2, mu)
+	h2.Accept(mu)
 	after := observe(h2)
 	vsym.Assert(vsym.Implies(vsym.Or(foreign, stale), vsym.Same(before, after)), "foreign or stale message changes nothing")
 	vsym.Reach("filter-compared")
